@@ -793,6 +793,13 @@ func (d *badgerNodeDB) Prune(version uint64) error {
 			Type:      rootHash.Type(),
 			Hash:      rootHash.Hash(),
 		}
+		// The nodes and the root key are removed in a single batch, before the roots metadata is
+		// updated. In case a previous Prune of this version was interrupted in between, the root
+		// has already been removed together with all of its nodes, so there is nothing left to do.
+		if err = d.checkRoot(tx, root); err == api.ErrRootNotFound {
+			continue
+		}
+
 		var innerErr error
 		err := api.Visit(context.Background(), d, root, func(_ context.Context, n node.Node) bool {
 			h := n.GetHash()
